@@ -59,11 +59,69 @@ def ghost(case):
     return {}
 
 
-def compare(mcases, icases):
-    """returns list of (index, first differing pair)"""
+# ---------------------------------------------------------------- property-specific views
+# The theorems of a property speak about some observables of the model's run; they transfer to the
+# implementation on an input as soon as model and implementation agree on those observables there.
+# A view lists, per dump line tag, the fields the property's statement reads (see DESIGN 0.1):
+#   T idx type chan byte char line payload | R/A idx chan type start stop line col endline endcol payload
+#   E kind byte char line col last | L byte char | LIT hex | OUT outcome | END configuration
+# "k7" = first letter of field 7 (payload kind); "n7" = field 7 if it is a numeric payload, else its kind;
+# "eof2" = whether field 2 is the EOF type.
+VIEWS = {
+    "C01": {"OUT": [1], "END": None, "only_ok": False},
+    "C02": {"T": [1, "eof2", 4], "R": [1, 4, 5], "A": [1, 4, 5]},
+    "C03": {"T": [1, 4, 5], "R": [1, 4, 5], "A": [1, 4, 5], "E": [2, 3]},
+    "C04": {"L": None, "T": [1, 4, 5, 6], "R": [1, 4, 5, 6, 7, 8, 9], "A": [1, 4, 5, 6, 7, 8, 9], "E": [2, 3, 4, 5]},
+    "C06": {"T": [1, 2, 3, 4, "k7"], "R": [1, 2, 3, 4, 5, "k10"], "A": [1, 2, 3, 4, 5, "k10"]},
+    "C07": {"T": [1, 2, 4, 7], "LIT": None, "R": [1, 3, 10], "A": [1, 3, 10]},
+    "C08": {"T": [1, 2, 4, 7], "R": [1, 3, 10], "A": [1, 3, 10]},
+    "C09": {"E": None, "T": [1, 2, 4]},
+    "C10": {"T": [1, 2, 3]},
+    "C12": {"E": None, "END": None, "OUT": [1], "only_ok": False},
+    "C13": {"T": [1, 2, 3, 4]},
+    "C14": {"E": None, "T": [1, 2, 3, 4]},
+    "C16": {"E": None, "T": [1, 2, 3, 4, 5, "n7"]},
+}
+
+
+def project(lines, view, eof):
+    out = []
+    for x in lines:
+        p = x.split(" ")
+        sel = view.get(p[0], False)
+        if sel is False:
+            continue
+        if sel is None:
+            out.append(x)
+            continue
+        q = [p[0]]
+        for f in sel:
+            if isinstance(f, int):
+                q.append(p[f] if f < len(p) else "")
+            elif f.startswith("k"):
+                j = int(f[1:])
+                q.append(p[j][:1] if j < len(p) else "")
+            elif f.startswith("n"):
+                j = int(f[1:])
+                v = p[j] if j < len(p) else ""
+                q.append(v if v[:1] in ("I", "F") else v[:1])
+            elif f.startswith("eof"):
+                j = int(f[3:])
+                q.append("EOF" if j < len(p) and p[j] == eof else "-")
+        out.append(" ".join(q))
+    return out
+
+
+def compare(mcases, icases, view=None, eof="0"):
+    """returns list of (index, first differing pair); with a view, only the observables the property
+    reads are compared, and (unless the view says otherwise) only on inputs on which the implementation returns"""
     diffs = []
     for m, i in zip(mcases, icases):
         a, b = norm(m.text), norm(i.text)
+        if view is not None:
+            if view.get("only_ok", True) and i.outcome != "ok":
+                continue
+            a, b = project(a, view, eof), project(b, view, eof)
         if a != b:
             k = next((j for j, (x, y) in enumerate(zip(a, b)) if x != y), min(len(a), len(b)))
             diffs.append((i.idx, a[k] if k < len(a) else None, b[k] if k < len(b) else None))
